@@ -4,4 +4,4 @@ for d in "$@"; do
   [ -f "$d/patch.diff" ] || continue
   if [ -f "$d/confirm.txt" ] && grep -q "existing tests with change: rc=0" "$d/confirm.txt" && grep -q "demo without change: rc=0" "$d/confirm.txt"; then continue; fi
   echo "$d"
-done | xargs -r -P 4 -I{} sh -c '/verif/tools/confirm_mut.sh {} >/dev/null 2>&1; echo "{} exit=$?"'
+done | xargs -r -P 1 -I{} sh -c '/verif/tools/confirm_mut.sh {} >/dev/null 2>&1; echo "{} exit=$?"'
